@@ -1,7 +1,10 @@
 """C10 — navigation between words, senses and synsets is referentially faithful."""
+import random
 import common
+import canon
 import dbfam
 import dboracles
+import gendoc
 
 TRUSTED = ['declared words/synsets and ILI sharing are computed from the generated documents; Python object equality and '
            'hashing are observed in the implementation process (no Gallina counterpart: entity equality is rowid equality in the model)']
@@ -15,6 +18,44 @@ def tweak(rng, u):
 
 def run(rep, tier, build, replay=None):
     dbfam.run_family(rep, tier, 'C10', 10, [dboracles.oracle_nav], 40, 600, tweak)
+    # ---- kept objects: a default-mode Wordnet, and words / synsets obtained from it, created when only the base lexicons
+    # are installed and navigated after their extensions (whose senses attach to base entries and base synsets) and further
+    # lexicons were added, must navigate exactly as objects obtained afterwards do (the latter are checked against the
+    # documents above)
+    rng = random.Random(common.seed() * 7919 + 1010)
+    n = 24 if tier == 'quick' else 300
+    jobs = []
+    for _ in range(n):
+        u = gendoc.gen_universe(rng, size=rng.choice([2, 3]), force={'ext'})
+        pre = [(nm, r) for nm, r in u if not r['lexicons'][0].get('extends')]
+        post = [(nm, r) for nm, r in u if r['lexicons'][0].get('extends')]
+        if len(pre) > 1 and rng.random() < 0.5:
+            post.append(pre.pop())
+        jobs.append({'pre': pre, 'post': post})
+    outs = common.run_impl_parallel('run_C10.py', [{'jobs': jobs[i::common.NPROC]} for i in range(common.NPROC) if jobs[i::common.NPROC]])
+    k_cases = k_ext_senses = 0
+    for i, o in enumerate(outs):
+        for j, rec in enumerate(o):
+            job = jobs[i + j * common.NPROC]
+            case = {'installed first': [nm for nm, _ in job['pre']], 'added afterwards': [nm for nm, _ in job['post']],
+                    'resources': dict(job['pre'] + job['post'])}
+            if not rec['adds_ok']:
+                continue
+            k_cases += 1
+            lexids_pre = set()
+            for what in ('kept', 'kept_wordnet'):
+                d = canon.diff(rec[what], rec['fresh'])
+                if d:
+                    rep.fail('navigation from %s differs from navigation from objects obtained after the adds'
+                             % ('words/synsets obtained before further lexicons were added' if what == 'kept'
+                                else 'a default-mode Wordnet created before further lexicons were added'),
+                             case, {'difference': d})
+                    break
+            for x in rec['fresh']['words'].values():
+                if x['senses'][0] == 'ok':
+                    k_ext_senses += sum(1 for s in x['sense_nav'] if s['word'][0] == 'ok' and s['ref'][1] is not None)
+    rep.coverage['kept_object_cases'] = k_cases
+    rep.coverage['kept_object_sense_navigations'] = k_ext_senses
     rep.coverage['rule'] = ('generated universes (several lexicons sharing ILIs, several synsets of one lexicon sharing an ILI, '
                             'absent and proposed ILIs, second versions reusing identifiers, extensions whose senses attach to base '
                             'entries and base synsets) x selections (default mode, single lexicon, several lexicons, extension '
